@@ -32,3 +32,9 @@ From SM Require Import Gen.C11_statics.
 Theorem C11_code_no_static_state : statics_scanned = true -> code_mutable_statics = [] /\ 0 < code_files_scanned.
 Proof. intros Ht. try solve [vm_compute in Ht; discriminate Ht]. all: split; [reflexivity | vm_compute; repeat constructor]. Qed.
 Print Assumptions C11_code_no_static_state.
+(* ... and the Python counterpart: in the modules between a request and its numbers (sesans, resolution, resolution2d,
+   weights, kernelpy, kerneldll, kernel, product, mixture, details, direct_model) there is no module-level container
+   that starts empty or has a lower-case name, no global statement and no cache decorator *)
+Theorem C11_code_no_module_state : statics_scanned = true -> code_python_module_state = [].
+Proof. intros Ht. try solve [vm_compute in Ht; discriminate Ht]. all: reflexivity. Qed.
+Print Assumptions C11_code_no_module_state.
